@@ -53,6 +53,11 @@ class ModelMixin:
         self.used_builtins.add(name)
         return m(args, kwargs, st, line)
 
+    def bi_object(self, args, kwargs, st, line):
+        # `object()`: a value with an identity of its own (sentinels): one uninterpreted constant per call site, so that a
+        # module-level `SENTINEL = object()` denotes the same value wherever it is referenced
+        return [ok(Opaque(f'object_created_at_line_{line}', kind='object'), st)]
+
     def bi_len(self, args, kwargs, st, line):
         v = self.unwrap_opt(args[0], st, 'len', line)
         if isinstance(v, (str, bytes, tuple)):
